@@ -46,6 +46,9 @@ type Field struct {
 	AP     []uint64 `json:"ap,omitempty"`
 	Len    int      `json:"len,omitempty"`
 	Toks   []Tok    `json:"toks,omitempty"`
+	// Shape, if set, makes the field a geo-shape field (index.GeoShapeField): its encoded
+	// shape is an extra doc-value term of the document when the field has doc values
+	Shape []byte `json:"shape,omitempty"`
 	// synonym field
 	Syn []SynEntry `json:"syn,omitempty"`
 	// vector field
@@ -136,6 +139,14 @@ func (f *field) Options() index.FieldIndexingOptions              { return f.opt
 func (f *field) AnalyzedLength() int                              { return f.alen }
 func (f *field) AnalyzedTokenFrequencies() index.TokenFrequencies { return f.freqs }
 func (f *field) NumPlainTextBytes() uint64                        { return 0 }
+
+type shapeField struct {
+	field
+	shape []byte
+}
+
+func (f *shapeField) GeoShape() (index.GeoJSON, error) { return nil, nil }
+func (f *shapeField) EncodedShape() []byte             { return f.shape }
 
 type compField struct{ field }
 
@@ -243,6 +254,9 @@ func (b Batch) Documents() []index.Document {
 				f := buildField(sf)
 				d.fields = append(d.fields, &vecField{field: f, vec: append([]float32(nil), sf.Vec...),
 					dims: sf.Dims, sim: sf.Sim, opt: sf.Opt})
+			case sf.Shape != nil:
+				f := buildField(sf)
+				d.fields = append(d.fields, &shapeField{field: f, shape: append([]byte{}, sf.Shape...)})
 			default:
 				f := buildField(sf)
 				d.fields = append(d.fields, &f)
